@@ -360,6 +360,30 @@ theorem c08_servers_independent (cfg : Cfg) (p : Srv × Srv) (xs : List (Bool ×
     ∧ (servePairAll cfg p xs).2.2 = (serveAll cfg p.2 ((xs.filter (fun y => !y.1)).map (·.2))).2 :=
   servePairAll_proj cfg p xs
 
+/-- Re-entrancy: a handler that dispatches NESTED messages on the same server (requests with other
+ids, notifications, failing ones) before it finishes changes nothing in what the outer message
+gets: the response to `r` after the nested dispatches is the response to `r` alone — in particular
+it carries `r`'s id, never a nested one. -/
+theorem c08_reentrant_dispatch_independent (cfg : Cfg) (s : Srv) (nested : List Req) (r : Req) :
+    (serve cfg (serveAll cfg s nested).2 r).1 = (serve cfg s r).1
+    ∧ ∀ i resp, r.id = some i → (serve cfg (serveAll cfg s nested).2 r).1 = some resp →
+        (CResp.shape resp).1 = i := by
+  refine ⟨c08_response_independent_of_history cfg s nested r, ?_⟩
+  intro i resp hid h
+  rw [c08_response_independent_of_history] at h
+  unfold serve at h
+  simp only [hid, Option.map_some] at h
+  split at h
+  · simp at h; subst h; rfl
+  · split at h
+    · simp at h; subst h; rfl
+    · split at h
+      · simp at h; subst h; rfl
+      · rename_i hres s2 hb
+        simp only [Option.some.injEq] at h
+        subst h
+        cases hres <;> rfl
+
 /-- equal ids, one after the other and on two servers: same answers as alone -/
 example :
     (serve cfgC (serveAll cfgC srvEx2 [{ id := some (.int 1), method := "tools/call", name := .str "b" },
